@@ -16,18 +16,21 @@ use simple_dns::Packet;
 
 /// (findings, outcome tag, accepted)
 pub fn check_msg(msg: &[u8], expect_accept: bool) -> (Vec<Finding>, &'static str, bool) {
-    let mk = || json!({"kind": "msg", "msg": hex(msg), "expect_accept": expect_accept});
+    // large messages are named, not quoted (their artefact is re-created from the generator)
+    let big = msg.len() > 20_000;
+    let hx = || if big { format!("{}... ({} bytes in all)", hex(&msg[..64.min(msg.len())]), msg.len()) } else { hex(msg) };
+    let mk = || if big { json!({"kind": "large-msg", "len": msg.len(), "header": hex(&msg[..12.min(msg.len())]), "expect_accept": expect_accept}) } else { json!({"kind": "msg", "msg": hex(msg), "expect_accept": expect_accept}) };
     let lib = guarded(|| Packet::parse(msg).map(|p| observe(&p)));
     let w = walk(msg);
     let mut out = Vec::new();
     match (lib, w) {
         (Err(pn), _) => {
-            out.push(finding(format!("C05|{}", pn.sig()), format!("{:?} on {}", pn, hex(msg)), mk()));
+            out.push(finding(format!("C05|{}", pn.sig()), format!("{:?} on {}", pn, hx()), mk()));
             (out, "panic", false)
         }
         (Ok(Err(e)), Ok(_)) => {
             if expect_accept {
-                out.push(finding("C05|rejects-well-formed", format!("well-framed message with natural RDLENGTHs rejected: {:?}: {}", e, hex(msg)), mk()));
+                out.push(finding("C05|rejects-well-formed", format!("well-framed message with natural RDLENGTHs rejected: {:?}: {}", e, hx()), mk()));
             }
             (out, "rejected-walkable", false)
         }
@@ -40,7 +43,7 @@ pub fn check_msg(msg: &[u8], expect_accept: bool) -> (Vec<Finding>, &'static str
             };
             out.push(finding(
                 format!("C05|accepts-{}", tag),
-                format!("message whose counts/lengths do not fit ({:?}) was accepted with {} questions, {}+{}+{} records: {}", e, o.questions.len(), o.answers.len(), o.authority.len(), o.additional.len(), hex(msg)),
+                format!("message whose counts/lengths do not fit ({:?}) was accepted with {} questions, {}+{}+{} records: {}", e, o.questions.len(), o.answers.len(), o.authority.len(), o.additional.len(), hx()),
                 mk(),
             ));
             (out, "accepted-unwalkable", true)
@@ -88,11 +91,14 @@ pub fn check_msg(msg: &[u8], expect_accept: bool) -> (Vec<Finding>, &'static str
                 if wrs.len() != lrs.len() {
                     out.push(finding(
                         format!("C05|record-count|{}", sname),
-                        format!("{}: {} records parsed, {} entries delimited by counts and RDLENGTHs: {}", sname, lrs.len(), wrs.len(), hex(msg)),
+                        format!("{}: {} records parsed, {} entries delimited by counts and RDLENGTHs: {}", sname, lrs.len(), wrs.len(), hx()),
                         mk(),
                     ));
                 }
                 for (i, (lr, wr)) in lrs.iter().zip(wrs.iter()).enumerate() {
+                    if out.len() >= 12 {
+                        break; // enough evidence for one message
+                    }
                     let mut bad = Vec::new();
                     if lr.name != wr.name.name {
                         bad.push(format!("owner {:?} vs {:?}", lr.name, wr.name.name));
@@ -109,7 +115,7 @@ pub fn check_msg(msg: &[u8], expect_accept: bool) -> (Vec<Finding>, &'static str
                     if !bad.is_empty() {
                         out.push(finding(
                             format!("C05|entry-misread|{}", sname),
-                            format!("{}[{}] does not correspond to the entry at offset {}: {}; message {}", sname, i, wr.start, bad.join(", "), hex(msg)),
+                            format!("{}[{}] does not correspond to the entry at offset {}: {}; message {}", sname, i, wr.start, bad.join(", "), hx()),
                             mk(),
                         ));
                         continue;
@@ -120,7 +126,7 @@ pub fn check_msg(msg: &[u8], expect_accept: bool) -> (Vec<Finding>, &'static str
                             match decode_vals(sch, msg, wr.rdata_start, wr.rdata_end()) {
                                 Err(DecErr::Overrun(f)) => out.push(finding(
                                     format!("C05|rdata-beyond-rdlength|{}", sch.mnemonic),
-                                    format!("{}[{}] ({}) accepted although field '{}' does not fit in its {} RDATA bytes: {}", sname, i, sch.mnemonic, f, wr.rdlen, hex(msg)),
+                                    format!("{}[{}] ({}) accepted although field '{}' does not fit in its {} RDATA bytes: {}", sname, i, sch.mnemonic, f, wr.rdlen, hx()),
                                     mk(),
                                 )),
                                 Ok(d) => {
@@ -484,7 +490,13 @@ pub fn run(ctx: &Ctx) {
             msgs.push(p.encode(0));
             msgs.push(p.encode_compressed(0, true));
         }
-        let chunks: Vec<&[Vec<u8>]> = msgs.chunks(64).collect();
+        let n_large = {
+            let large = gen::large_messages();
+            let n = large.len();
+            msgs.extend(large);
+            n
+        };
+        let chunks: Vec<&[Vec<u8>]> = msgs.chunks(if msgs.len() > 64 { 16 } else { 64 }).collect();
         par_shards(ctx, &chunks, |ms, t: &mut Tally| {
             for m in ms.iter() {
                 t.evals += 1;
@@ -500,7 +512,8 @@ pub fn run(ctx: &Ctx) {
             }
         });
         ctx.space("name shapes: owner names of 0..=130 inline labels with and without a closing pointer, a label of every length 1..=63 before a pointer, chains of every length up to 700 (2100 thorough) and 2000/4000/8000 label-less backward pointers reached from an owner, an MX exchange and a following record; all natural RDLENGTHs, acceptance required exactly when the envelope walker succeeds", n_shapes as u64, "complete");
-        ctx.space("size sweep: reference encodings (plain and compressed) of every string length 0..=255, tail length 0..=600, label count 1..=127, label length 1..=63, name length 3..=255, list sizes and 2..400 distinct repeated names", (msgs.len() - n_shapes) as u64, "complete");
+        ctx.space("size sweep: reference encodings (plain and compressed) of every string length 0..=255, tail length 0..=600, label count 1..=127, label length 1..=63, name length 3..=255, list sizes and 2..400 distinct repeated names", (msgs.len() - n_shapes - n_large) as u64, "complete");
+        ctx.space("messages beyond 64 KiB: records with RDATA of 32766..65535 bytes followed by records whose names are compression pointers located beyond offset 65536 (and 131072, 196608), and messages whose sections together hold 65536..196605 records", n_large as u64, "complete");
     }
     {
         // every valid compression layout of records of every name-bearing type
@@ -556,6 +569,17 @@ fn replay_follow(msg: &[u8], nsent: usize) -> Vec<Finding> {
 pub fn replay(case: &Value) -> Vec<Finding> {
     if case["kind"].as_str() == Some("follow") {
         return replay_follow(&unhex(case["msg"].as_str().unwrap_or("")), case["sentinels"].as_u64().unwrap_or(1) as usize);
+    }
+    if case["kind"].as_str() == Some("large-msg") {
+        let len = case["len"].as_u64().unwrap_or(0) as usize;
+        let head = case["header"].as_str().unwrap_or("").to_string();
+        let mut out = Vec::new();
+        for m in gen::large_messages() {
+            if m.len() == len && hex(&m[..12]) == head {
+                out.extend(check_msg(&m, case["expect_accept"].as_bool().unwrap_or(false)).0);
+            }
+        }
+        return out;
     }
     check_msg(&unhex(case["msg"].as_str().unwrap_or("")), case["expect_accept"].as_bool().unwrap_or(false)).0
 }
